@@ -62,4 +62,8 @@ claim('C01', 'model_checking', 'tlc-emit-replay', 'TLA+ spec NixData + TLC (BFS 
       'SlabFrame/GrowReadsZero/AppendKeeps/RawUnaffected/RejectFrame hold on the design; every transition is executed for each element type '
       'and compression and the whole content plus every rectangular sub-region is read back raw, calibrated and cross-type.',
       'Trusted: TLC, harness/h_data.cpp. Small shapes (ext<=3, rank<=3 quick / 4 thorough); values from per-type dictionaries, not arbitrary bit patterns.', 'DESIGN.md section 5 (C01)')
+claim('C13', 'model_checking', 'tlc-emit-replay', 'TLA+ spec NixDims + TLC (BFS over append/modify/delete/alias histories) + per-transition replay with all getters',
+      'TicksSorted/IntervalPositive/UnitsSI/AliasAlone/AliasMirrors/DeleteAllLeavesNone/AppendFrameProp/RejectFrame hold on the design; every '
+      'transition incl. every illegal value at every entry point is executed and all getters of all descriptors plus the array side of the alias '
+      'mirror are compared, also after reopen.', 'Trusted: TLC, harness/h_dims.cpp. Two good + the bad values per field; <=3 descriptors; depth <=5.', 'DESIGN.md section 5 (C13)')
 ENGINES[0]['serves_properties'] = sorted(CLAIMED)
